@@ -10,7 +10,7 @@ CFG = {
             ("mem", "def", "remove", 22, 200), ("mem", "def", "malformed", 5, 50), ("shm", "lim", "remove", 4, 40)],
     "limit": None,
     "conc": "removal", "conc_quick": 10,
-    "conc2_quick": (3, 60), "conc2_thorough": (6, None),
+    "conc2_quick": (3, 60), "conc2_thorough": (3, None),
     "rand": ("remove", 8, 100),
 }
 
